@@ -56,7 +56,7 @@ Definition cmd_invalidates (c : hcmd) : bool :=
   | HSetReg _ _ => Flags.mutation_point_invalidates Flags.MP_set_registry
   | HGlobal _ _ _ _ => Flags.mutation_point_invalidates Flags.MP_override_enter
   | HUnglobal => Flags.mutation_point_invalidates Flags.MP_override_leave
-  | HObsListing | HObsOther => Flags.mutation_point_invalidates Flags.MP_handoff     (* listing hands relation links down *)
+  | HObsListing | HObsCopy | HObsOther => Flags.mutation_point_invalidates Flags.MP_handoff     (* listing hands relation links down *)
   | HObsDuration => true
   end.
 
